@@ -29,7 +29,17 @@ thread_local! {
     pub static LAST_PANIC: RefCell<String> = RefCell::new(String::new());
 }
 
+thread_local! {
+    /// an earlier sampled call (inputs + result) kept for the history-independence probe
+    static PAST_CALL: RefCell<Option<(Params, Location, NaiveDate, Option<Weather>, Res)>> = RefCell::new(None);
+}
+const PROBE_EVERY_DEFAULT: u64 = 509;
+
 /// `prayer_times_dt` under catch_unwind; Err carries "file:line: message" of the panic.
+///
+/// History-independence probe (every 509th call): the same input is re-executed (a) on a fresh thread (no
+/// thread-local state) and (b) much later on the same thread (after hundreds of unrelated calls); a result that
+/// differs means the value depends on the call history (a stale cache / memo), which no property here allows.
 pub fn call(
     st: &mut Stats,
     p: &Params,
@@ -39,10 +49,150 @@ pub fn call(
 ) -> Result<Res, String> {
     st.evaluations += 1;
     st.tick();
-    match catch_unwind(AssertUnwindSafe(|| prayer_times_dt(p, l, d, w))) {
+    let r = match catch_unwind(AssertUnwindSafe(|| prayer_times_dt(p, l, d, w))) {
         Ok(r) => Ok(r),
         Err(_) => Err(LAST_PANIC.with(|p| p.borrow().clone())),
+    };
+    // C07 (never panics) probes much more often: history-dependent panics need a predecessor call
+    let probe_every = if st.prop == "C07" { 8 } else { PROBE_EVERY_DEFAULT };
+    if st.evaluations % probe_every == 0 {
+        if let Ok(res) = &r {
+            let describe = |p: &Params, l: Location, d: NaiveDate, w: Option<Weather>| {
+                serde_json::json!({"history_probe": true, "date": d2s(d), "location": format!("{l:?}"), "weather": format!("{w:?}"),
+                    "params": serde_json::to_value(p).unwrap_or(Value::Null)})
+            };
+            // (a) fresh thread
+            let fresh = std::thread::scope(|s| s.spawn(|| catch_unwind(AssertUnwindSafe(|| prayer_times_dt(p, l, d, w)))).join());
+            st.count("history_probe.fresh_thread_reexecutions");
+            if let Ok(Ok(f)) = fresh {
+                if &f != res {
+                    st.violate("result_depends_on_call_history", &describe(p, l, d, w), serde_json::json!({"probe": "same input on a fresh thread", "in_sequence": res_json(res), "fresh_thread": res_json(&f)}));
+                }
+            }
+            // (b) an input sampled ~509 calls ago, re-executed now on this thread
+            let past = PAST_CALL.with(|c| c.borrow_mut().take());
+            if let Some((pp, pl, pd, pw, pres)) = past {
+                st.count("history_probe.delayed_reexecutions");
+                if let Ok(again) = catch_unwind(AssertUnwindSafe(|| prayer_times_dt(&pp, pl, pd, pw))) {
+                    if again != pres {
+                        st.violate("result_depends_on_call_history", &describe(&pp, pl, pd, pw), serde_json::json!({"probe": "same input re-executed later on the same thread", "first": res_json(&pres), "later": res_json(&again)}));
+                    }
+                }
+            }
+            PAST_CALL.with(|c| *c.borrow_mut() = Some((p.clone(), l, d, w, res.clone())));
+            // (c) cache-poisoning probe: call a NEAR-DUPLICATE input (one field nudged), then the original again.
+            //     A memo keyed too coarsely (or missing a field) hands the neighbour's data back to the original.
+            let kind = (st.evaluations / probe_every) % 13;
+            let (mut p2, mut l2, mut d2, mut w2) = (p.clone(), l, d, w);
+            let g = f64::from(l.gmt);
+            let lo = f64::from(l.coords.longitude);
+            let la = f64::from(l.coords.latitude);
+            let el = f64::from(l.coords.elevation);
+            let nudge = |v: f64, dv: f64, a: f64, b: f64| if v + dv <= b && v + dv >= a { v + dv } else { v - dv };
+            match kind {
+                0 => l2.gmt = Gmt::try_from(nudge(g, 0.005, -12.0, 12.0)).unwrap(),
+                1 => l2.gmt = Gmt::try_from(nudge(g, 0.5, -12.0, 12.0)).unwrap(),
+                2 => l2.coords.longitude = Longitude::try_from(nudge(lo, 1e-4, -180.0, 180.0)).unwrap(),
+                3 => l2.coords.latitude = Latitude::try_from(nudge(la, 1e-4, -90.0, 90.0)).unwrap(),
+                4 => l2.coords.elevation = Elevation::try_from(nudge(el, 0.4, -420.0, 8848.0)).unwrap(),
+                5 => d2 = d.succ_opt().unwrap_or(d),
+                6 => d2 = d.pred_opt().unwrap_or(d),
+                7 => w2 = Some(weather(1013.0, if w.is_some() { -5.0 } else { 31.0 })),
+                8 => p2.asr_shadow_ratio = if p.asr_shadow_ratio == AsrShadowRatio::Shafi { AsrShadowRatio::Hanafi } else { AsrShadowRatio::Shafi },
+                9 => {
+                    p2.angles.insert(Prayer::Fajr, p.angles[&Prayer::Fajr] + 0.25);
+                    p2.angles.insert(Prayer::Isha, p.angles[&Prayer::Isha] + 0.25);
+                }
+                10 => {
+                    p2.minutes.insert(Prayer::Fajr, p.minutes[&Prayer::Fajr] + 7.0);
+                    p2.intervals.insert(Prayer::Imsaak, p.intervals[&Prayer::Imsaak] + 3.0);
+                }
+                11 => p2.round_seconds = if p.round_seconds == RoundSeconds::None { RoundSeconds::NormalRounding } else { RoundSeconds::None },
+                _ => {
+                    use ExtremeLatitudeMethod as E;
+                    p2.extreme_latitude_method = match p.extreme_latitude_method {
+                        E::None => E::NearestGoodDayAllPrayersAlways,
+                        E::AngleBased => E::SeventhOfNightFajrIshaInvalid,
+                        E::NearestLatitudeAllPrayersAlways(x) => E::NearestLatitudeFajrIshaAlways(x),
+                        E::NearestLatitudeFajrIshaAlways(x) => E::NearestLatitudeAllPrayersAlways(x),
+                        E::NearestLatitudeFajrIshaInvalid(x) => E::NearestLatitudeFajrIshaAlways(x),
+                        E::NearestGoodDayAllPrayersAlways => E::NearestGoodDayFajrIshaInvalid,
+                        E::NearestGoodDayFajrIshaInvalid => E::NearestGoodDayAllPrayersAlways,
+                        E::SeventhOfNightFajrIshaAlways => E::SeventhOfDayFajrIshaAlways,
+                        E::SeventhOfNightFajrIshaInvalid => E::SeventhOfNightFajrIshaAlways,
+                        E::SeventhOfDayFajrIshaAlways => E::SeventhOfNightFajrIshaAlways,
+                        E::SeventhOfDayFajrIshaInvalid => E::SeventhOfDayFajrIshaAlways,
+                        E::HalfOfNightFajrIshaAlways => E::HalfOfNightFajrIshaInvalid,
+                        E::HalfOfNightFajrIshaInvalid => E::HalfOfNightFajrIshaAlways,
+                        E::MinutesFromMaghribFajrIshaAlways => E::MinutesFromMaghribFajrIshaInvalid,
+                        E::MinutesFromMaghribFajrIshaInvalid => E::MinutesFromMaghribFajrIshaAlways,
+                    };
+                }
+            }
+            st.count("history_probe.near_duplicate_then_original");
+            let mut shadow_panic: Option<String> = None;
+            if catch_unwind(AssertUnwindSafe(|| prayer_times_dt(&p2, l2, d2, w2))).is_err() {
+                shadow_panic = Some(LAST_PANIC.with(|p| p.borrow().clone()));
+            }
+            match catch_unwind(AssertUnwindSafe(|| prayer_times_dt(p, l, d, w))) {
+                Ok(again) => {
+                    if &again != res {
+                        st.violate("result_depends_on_call_history", &describe(p, l, d, w), serde_json::json!({"probe": "original input re-executed right after a near-duplicate call", "nudged_field_kind": kind, "first": res_json(res), "after_neighbour": res_json(&again)}));
+                    }
+                }
+                Err(_) => shadow_panic = Some(LAST_PANIC.with(|p| p.borrow().clone())),
+            }
+            // (d) the other order, on a fresh thread: near-duplicate FIRST, then the original input
+            st.count("history_probe.fresh_thread_near_duplicate_first");
+            let fresh2 = std::thread::scope(|s| {
+                s.spawn(|| {
+                    let a = catch_unwind(AssertUnwindSafe(|| prayer_times_dt(&p2, l2, d2, w2))).is_ok();
+                    let b = catch_unwind(AssertUnwindSafe(|| prayer_times_dt(p, l, d, w)));
+                    (a, b, LAST_PANIC.with(|p| p.borrow().clone()))
+                })
+                .join()
+            });
+            if let Ok((a_ok, b, pm)) = fresh2 {
+                match b {
+                    Ok(f) => {
+                        if &f != res {
+                            st.violate("result_depends_on_call_history", &describe(p, l, d, w), serde_json::json!({"probe": "fresh thread: near-duplicate call first, then the original input", "nudged_field_kind": kind, "in_sequence": res_json(res), "after_neighbour_on_fresh_thread": res_json(&f)}));
+                        }
+                        if !a_ok && d2 != d {
+                            // the neighbour itself panicked although it is a valid input
+                            shadow_panic = Some(pm);
+                        }
+                    }
+                    Err(_) => shadow_panic = Some(pm),
+                }
+            }
+            if let Some(pm) = shadow_panic {
+                if st.prop == "C07" {
+                    st.violate("panic", &describe(p, l, d, w), serde_json::json!({"panic": pm, "probe": "panic in a call made right after / before a near-duplicate call (history-dependent)", "nudged_field_kind": kind}));
+                } else {
+                    st.count("panicked_cannot_decide(see C07)");
+                }
+            }
+        }
     }
+    r
+}
+
+/// bisection down to adjacent f64 values: `pred(a)` must be true and `pred(b)` false on entry;
+/// returns (last value where pred holds, first value where it does not)
+pub fn bisect(mut a: f64, mut b: f64, mut pred: impl FnMut(f64) -> bool) -> (f64, f64) {
+    for _ in 0..200 {
+        let m = a + (b - a) / 2.0;
+        if m == a || m == b {
+            break;
+        }
+        if pred(m) {
+            a = m;
+        } else {
+            b = m;
+        }
+    }
+    (a, b)
 }
 
 pub fn guarded<T>(f: impl FnOnce() -> T) -> Result<T, String> {
